@@ -867,6 +867,32 @@ def _expression_helper(h: FuncInfo) -> ast.AST | None:
     body = [b for b in h.node.body if not (isinstance(b, ast.Expr) and isinstance(b.value, ast.Constant) and isinstance(b.value.value, str))]  # type: ignore[attr-defined]
     if len(body) == 1 and isinstance(body[0], ast.Return) and body[0].value is not None:
         return body[0].value
+    # a straight line of single-assignment locals followed by the return (`escaped = f(x); return f'"{escaped}"'`) is the
+    # expression obtained by writing each local out where it is read - when every local is bound once, read at most once (so
+    # nothing is evaluated twice or in another order) and not a parameter
+    if 2 <= len(body) <= 5 and isinstance(body[-1], ast.Return) and body[-1].value is not None and all(isinstance(b, ast.Assign) and len(b.targets) == 1 and isinstance(b.targets[0], ast.Name) for b in body[:-1]):
+        params = {a.arg for a in h.node.args.args + h.node.args.kwonlyargs}  # type: ignore[attr-defined]
+        names = [b.targets[0].id for b in body[:-1]]  # type: ignore[attr-defined]
+        if len(set(names)) == len(names) and not (set(names) & params):
+            expr: ast.AST = clone(body[-1].value)
+            ok = True
+            for b in reversed(body[:-1]):
+                nm = b.targets[0].id  # type: ignore[attr-defined]
+                later = [x for st in body[body.index(b) + 1:] for x in ast.walk(st) if isinstance(x, ast.Name) and x.id == nm]
+                reads_in_expr = [x for x in ast.walk(expr) if isinstance(x, ast.Name) and x.id == nm and isinstance(x.ctx, ast.Load)]
+                if len(reads_in_expr) > 1 or len(later) < len(reads_in_expr):
+                    ok = False
+                    break
+                val = b.value
+
+                class _Sub(ast.NodeTransformer):
+                    def visit_Name(self, x: ast.Name):  # noqa: N802
+                        return ast.copy_location(clone(val), x) if isinstance(x.ctx, ast.Load) and x.id == nm else x
+
+                expr = _Sub().visit(expr)
+            # every local must have been consumed by the substitution (a local that is only bound is an effect we keep out)
+            if ok and not any(isinstance(x, ast.Name) and x.id in names for x in ast.walk(expr)):
+                return expr
     return None
 
 
